@@ -6,7 +6,7 @@
 // structural breaks (newline / paragraph break).
 #[test]
 fn rac_markdown_tokens() {
-    let frags = ["word ", "é😀 ", "[日本語の説明書](x) ", "[a](https://e.com/é) ", "`c😀de` ", "*emph* ", "\n\n", "\n", "# H\n", "- item\n", "| a | b |\n", "1. x\n", "<b>t</b> ", "\\[a- ", "[[|alias|300]] ", "\\[[a|b|c]] ", "[[a|b [[c]] |d]] ", "[[page|shown]] "];
+    let frags = ["word ", "é😀 ", "[日本語の説明書](x) ", "[a](https://e.com/é) ", "`c😀de` ", "*emph* ", "\n\n", "\n", "# H\n", "- item\n", "| a | b |\n", "1. x\n", "<b>t</b> ", "\\[a- ", "[[|alias|300]] ", "\\[[a|b|c]] ", "[[a|b [[c]] |d]] ", "[[page|shown]] ", "<!-- café --> ", "<abbr title=\"naïve\">x</abbr> ", "<div>🤷</div>\n"];
     let mut texts: Vec<String> = vec![String::new()];
     let mut frontier: Vec<String> = vec![String::new()];
     for _ in 0..4 {
@@ -57,5 +57,5 @@ fn rac_markdown_tokens() {
             }
         }
     }
-    println!("RAC-OK markdown_tokens cases={} nontrivial={} bound=<=4-of-18-fragments,both-link-title-options", cases, nontrivial);
+    println!("RAC-OK markdown_tokens cases={} nontrivial={} bound=<=4-of-21-fragments,both-link-title-options", cases, nontrivial);
 }
